@@ -186,6 +186,55 @@ def run(A, R: Report, thorough: bool):
     ok = bool(floops) and any(isinstance(c, ast.Call) and isinstance(c.func, ast.Attribute) and c.func.attr == 'force' and any(kw.arg is None for kw in c.keywords) for lp in floops for c in ast.walk(lp))
     R.check(ok, 'R07.4', 'MultiChain.force', key_of('fanout'), 'fan-out over all chains with the flags', 'MultiChain.force does not reach every chain with the flags', where=where(mc))
 
+    # ---- R07.4b the closure does not depend on the state of the tasks
+    R.rule('R07.4b', 'which tasks Chain.force marks depends on the graph only, never on task state (forced flag, stored data)', floor=1)
+    cg = A.cg
+    state_attrs = {'is_forced', '_forced', 'has_data', '_data', 'data_path'}
+    chain_ci = A.cls('Chain')
+    reach = cg.reachable(A.ctxs(cf), edge_filter=lambda e: e.target.kind == 'func' and e.target.func.cls is not None and e.target.func.cls.is_subclass_of(chain_ci))
+    bad = []
+    for ctx in reach:
+        g = ctx.func
+        if g.cls is None or not g.cls.is_subclass_of(chain_ci):
+            continue
+        for node in A.typer.own_nodes(g):
+            if isinstance(node, (ast.If, ast.While, ast.IfExp, ast.comprehension)):
+                tests = [node.test] if not isinstance(node, ast.comprehension) else list(node.ifs)
+                for t in tests:
+                    for x in ast.walk(t):
+                        if isinstance(x, ast.Attribute) and x.attr in state_attrs:
+                            bad.append((g, node, src(t)))
+    seen = set()
+    for g, node, t in bad:
+        if (g.short, t) in seen:
+            continue
+        seen.add((g.short, t))
+        R.violation('R07.4b', f'{g.short}: `{t[:60]}`', key_of('state-dependent-closure', g.short, t), f'the set of tasks to force is pruned by task state (`{t}`): tasks downstream of an already forced / computed task are not marked', where=where(g, node))
+    if not bad:
+        R.ok('R07.4b', 'Chain.force call tree', f'{len(reach)} context(s): no condition reads task state', where=where(cf))
+
+    # ---- R07.6 the forced flag is never cleared before the recomputation has succeeded
+    R.rule('R07.6', 'the forced flag is cleared (if at all) only after the result of the forced run was processed successfully', floor=1)
+    resets = []
+    for c in task.all_subclasses():
+        for name, f in c.methods.items():
+            if name in ('__init__',):
+                continue
+            for node in A.typer.own_nodes(f):
+                if isinstance(node, (ast.Assign, ast.AugAssign)) and any(src(t) == 'self._forced' for t in (node.targets if isinstance(node, ast.Assign) else [node.target])) \
+                        and not (isinstance(node.value, ast.Constant) and node.value.value is True):
+                    resets.append((f, node))
+    for f, node in resets:
+        ok = False
+        if f.name == 'data':
+            cfg2 = A.cfg(f)
+            procs = [n.id for c2 in A.typer.own_nodes(f) if isinstance(c2, ast.Call) and isinstance(c2.func, ast.Attribute) and c2.func.attr == '_process_run_result' for n in cfg_nodes_for(cfg2, c2)]
+            ok = bool(procs) and all(any(cfg2.dominates(p, cn.id) for p in procs) and cn.id not in cfg2.in_handler for cn in cfg_nodes_for(cfg2, node))
+        R.check(ok, 'R07.6', f'{f.short}: `{src(node)}`', key_of('forced-cleared', f.short, src(node)), 'cleared after the forced result was stored',
+                f'`{src(node)}` in {f.short} clears the forced flag before the recomputation succeeded: if run fails, the retry loads the stale stored result instead of running', where=where(f, node))
+    if not resets:
+        R.ok('R07.6', 'Task', 'the forced flag is never cleared', where=where(fforce))
+
     # ---- R07.5
     E = effects_of(A)
     classes = persistent_data_classes(A)
